@@ -147,6 +147,7 @@ pub(crate) struct Scenario {
 // ---------------------------------------------------------------------------------------------
 
 struct Gen {
+    lat: u32,
     r: Rng,
     ops: Vec<Op>,
     next_id: u32,
@@ -164,13 +165,18 @@ impl Gen {
     fn maybe_noise(&mut self) {
         let q = match self.wait_style {
             0 => 1,
-            1 => 12,
-            _ => 6,
+            1 => 14,
+            2 => 8,
+            _ => 5,
         };
         if self.r.chance(q, 20) {
+            // waits are scaled to the RPC latency so that "the executor got k RPCs done in between"
+            // is as likely as "nothing happened in between"
+            let l = self.lat.max(1);
             let ms = match self.wait_style {
                 0 => *self.r.pick(&[0, 0, 1, 50]),
-                1 => *self.r.pick(&[0, 1, 1, 2, 5, 10, 20]),
+                1 => *self.r.pick(&[0, 1, l / 2, l, l, 2 * l, 3 * l]),
+                2 => *self.r.pick(&[1, l, 2 * l, 4 * l, 8 * l, 20 * l]),
                 _ => *self.r.pick(&[0, 1, 3, 10, 40, 150, 700, 3000, 15000]),
             };
             let id = self.id();
@@ -286,7 +292,7 @@ impl Gen {
         let firm = self.stream(m_firm, cfg.via_cache, anomalies, true);
         let (mut si, mut fi) = (0usize, 0usize);
         // how strongly the merge prefers soft: low = firm first, high = soft far ahead
-        let p_soft = *self.r.pick(&[3u64, 15, 35, 50, 65, 85, 97]);
+        let p_soft = *self.r.pick(&[3u64, 20, 40, 50, 60, 75, 90, 97]);
         // optional hard prefix: k firm blocks before anything else / k soft blocks first
         let lead = self.r.below(6);
         let lead_len = self.r.range(1, (cfg.look_ahead + 3).min(12)) as usize;
@@ -388,7 +394,8 @@ fn generate(_profile: &str, _tier: &str, seed: u64) -> Scenario {
     };
     let anomalies = r.chance(3, 5);
     let mut g = Gen {
-        wait_style: r.below(3) as u8,
+        lat: lat_max_ms.min(2000) as u32,
+        wait_style: r.weighted(&[2, 4, 3, 2]) as u8,
         fault_rate: *r.pick(&[0u64, 0, 3, 8, 20]),
         allow_fatal: r.chance(1, 3),
         r: r.fork(7),
